@@ -397,6 +397,8 @@ class Report:
                          "traces_validated_against_impl": 0}
         self.assumptions = []
         self.notes = []
+        if os.environ.get("VERIF_ESCALATED") == "1":
+            self.notes.append("second quick run with another seed: the library source differs from source_fingerprint.json and the first run found nothing")
 
     def known(self, what: str):
         line = "KNOWN-FINDING: property=%s %s" % (self.prop, what)
